@@ -99,6 +99,10 @@ func expectedNames() map[string]bool {
 	return out
 }
 
+// gen3On adds the third-generation operators: changes that add or drop something at a call (the kind the eighth blind
+// wave used: an option added to a call, an effect performed twice, one half of a condition dropped).
+var gen3On bool
+
 func genMutants(fset *token.FileSet, src []byte, fd *ast.FuncDecl, ops map[string]bool, info *types.Info, gen2 bool) []srcMutant {
 	var out []srcMutant
 	off := func(p token.Pos) int { return fset.Position(p).Offset }
@@ -167,6 +171,45 @@ func genMutants(fset *token.FileSet, src []byte, fd *ast.FuncDecl, ops map[strin
 			}
 		case *ast.DeferStmt:
 			add("delete-defer", off(x.Pos()), off(x.End()), "", x.Pos())
+		}
+		if gen3On {
+			switch x := n.(type) {
+			case *ast.CallExpr:
+				if x.Ellipsis.IsValid() && len(x.Args) >= 1 {
+					// f(a, xs...) -> f(a): the forwarded variadic arguments are dropped
+					last := x.Args[len(x.Args)-1]
+					s := off(last.Pos())
+					if len(x.Args) >= 2 {
+						s = off(x.Args[len(x.Args)-2].End())
+					}
+					add("drop-variadic", s, off(x.Rparen), "", x.Pos())
+				}
+			case *ast.BinaryExpr:
+				if x.Op == token.LAND || x.Op == token.LOR {
+					// one operand of && / || dropped
+					add("drop-conjunct", off(x.Pos()), off(x.End()), string(src[off(x.X.Pos()):off(x.X.End())]), x.OpPos)
+					add("drop-conjunct", off(x.Pos()), off(x.End()), string(src[off(x.Y.Pos()):off(x.Y.End())]), x.OpPos)
+				}
+			case *ast.BlockStmt:
+				for _, st := range x.List {
+					dup := false
+					switch y := st.(type) {
+					case *ast.ExprStmt:
+						_, dup = y.X.(*ast.CallExpr)
+					case *ast.AssignStmt:
+						if y.Tok == token.ASSIGN && len(y.Rhs) == 1 {
+							_, dup = y.Rhs[0].(*ast.CallExpr)
+						}
+					case *ast.IncDecStmt:
+						dup = true
+					}
+					if dup {
+						// the statement (an effect) is performed twice
+						t := string(src[off(st.Pos()):off(st.End())])
+						add("dup-stmt", off(st.Pos()), off(st.End()), t+"\n"+t, st.Pos())
+					}
+				}
+			}
 		}
 		if !gen2 {
 			return true
@@ -259,6 +302,7 @@ func cmdMutate(args []string) int {
 	limit := fs.Int("limit", 0, "stop after this many mutants (0: no limit)")
 	gen2F := fs.Bool("gen2", false, "add the second-generation operators (widen ==, narrow !=, drop !, literal-1, swap adjacent arguments / statements, sibling field of the same type)")
 	onlyGen2 := fs.Bool("only-gen2", false, "with -gen2: run only the second-generation operators")
+	gen3F := fs.Bool("gen3", false, "run only the third-generation operators (drop forwarded variadic arguments, perform a statement twice, drop one operand of && / ||)")
 	propF := fs.String("property", "", "only obligations on the expectation list of this property's check")
 	stride := fs.Int("stride", 1, "take every n-th mutant ...")
 	phase := fs.Int("phase", 0, "... starting with this one (a sample that changes with the seed)")
@@ -268,6 +312,13 @@ func cmdMutate(args []string) int {
 	for _, o := range strings.Split(*opsF, ",") {
 		if o != "" {
 			ops[o] = true
+		}
+	}
+	opsGiven := len(ops) > 0
+	if *gen3F {
+		gen3On = true
+		if len(ops) == 0 {
+			ops = map[string]bool{"drop-variadic": true, "dup-stmt": true, "drop-conjunct": true}
 		}
 	}
 	expected := expectedNames()
@@ -290,6 +341,8 @@ func cmdMutate(args []string) int {
 	}
 	var all []srcMutant
 	baseline := map[string]map[string]string{} // unit key -> agg name -> status
+	baseAll := map[string]map[string]bool{}    // unit key -> every agg name the unchanged function generates
+	unitChecks := loadUnitChecks()
 	for _, mod := range []string{".", "v2"} {
 		eng, err := getEngine(mod, nil)
 		if err != nil {
@@ -359,12 +412,15 @@ func cmdMutate(args []string) int {
 						}
 						res := eng.verifyFunc(u, 5, 0, false, true)
 						st := map[string]string{}
+						seen := map[string]bool{}
 						for _, a := range aggregate(res.Obs) {
+							seen[a.Name] = true
 							if expected[a.Name] || *anyOb {
 								st[a.Name] = a.Status
 							}
 						}
 						baseline[u] = st
+						baseAll[u] = seen
 					}
 					for _, m := range genMutants(eng.fset, src, fd, ops, p.TypesInfo, *gen2F) {
 						m.File = strings.TrimPrefix(path, repoRoot+"/")
@@ -460,6 +516,26 @@ func cmdMutate(args []string) int {
 				if m.Status == "killed" && (len(propOwn) == 0 || m.own) {
 					break
 				}
+				if m.Status == "survived" {
+					// an obligation the unchanged function does not generate (a new call site's precondition, a new
+					// allocation, a new write under a lock …) and that is not discharged: `gcv check` reports every
+					// obligation of a unit it selects, expected or not, so this mutant is noticed as well
+					for _, a := range aggregate(res.Obs) {
+						if baseAll[u][a.Name] || a.Status == "proved" || isErrProp(a.Name) {
+							continue
+						}
+						if by := reportedBy(u, a, unitChecks); by != "" && (*propF == "" || by == *propF) {
+							m.Status, m.KilledBy = "killed", a.Name+" (new obligation, not discharged; check "+by+")"
+							if *propF != "" {
+								m.own = true
+							}
+							break
+						}
+					}
+					if m.Status == "killed" {
+						break
+					}
+				}
 			}
 			mu.Lock()
 			done++
@@ -491,7 +567,7 @@ func cmdMutate(args []string) int {
 	if *outF != "" {
 		os.WriteFile(*outF, []byte(outb.String()), 0o644)
 	}
-	if *fileF == "" && *funcF == "" && *limit == 0 && !*anyOb && len(ops) == 0 && *propF == "" && *stride <= 1 {
+	if *fileF == "" && *funcF == "" && *limit == 0 && !*anyOb && !opsGiven && *propF == "" && *stride <= 1 {
 		// a complete sweep: keep its summary next to the triage file
 		byOp := map[string]map[string]int{}
 		var open []map[string]interface{}
@@ -512,7 +588,9 @@ func cmdMutate(args []string) int {
 		}
 		data, _ := json.MarshalIndent(rep, "", " ")
 		name := "report.json"
-		if *onlyGen2 {
+		if *gen3F {
+			name = "report_gen3.json"
+		} else if *onlyGen2 {
 			name = "report_gen2.json" // the second-generation operators are swept and reported separately
 		} else if *gen2F {
 			name = "report_all.json"
@@ -532,4 +610,44 @@ func cmdMutate(args []string) int {
 	}
 	fmt.Printf("mutants: %d killed, %d survived without an explanation, %d survived and explained in mutation/triage.json, %d invalid (do not compile)\n", counts["killed"], counts["survived"], counts["survived-triaged"], counts["invalid"])
 	return 0
+}
+
+// unitCheck: one (property, unit) pair under which a function is verified by a check.
+type unitCheck struct {
+	prop string
+	unit Unit
+}
+
+func loadUnitChecks() map[string][]unitCheck {
+	out := map[string][]unitCheck{}
+	files, _ := filepath.Glob(filepath.Join(verifRoot, "checks", "C*.json"))
+	for _, f := range files {
+		data, err := os.ReadFile(f)
+		if err != nil {
+			continue
+		}
+		var s CheckSpec
+		if json.Unmarshal(data, &s) == nil {
+			for _, u := range s.Units {
+				out[u.Func] = append(out[u.Func], unitCheck{s.Property, u})
+			}
+		}
+	}
+	return out
+}
+
+// reportedBy names a check whose selection rule (selectObs) includes a part of this obligation that is not discharged.
+func reportedBy(fn string, a *AggOb, uc map[string][]unitCheck) string {
+	for _, c := range uc[fn] {
+		r := &FuncResult{}
+		for _, p := range a.Parts {
+			if p.Status != "proved" {
+				r.Obs = append(r.Obs, p)
+			}
+		}
+		if len(selectObs(r, c.unit, c.prop)) > 0 {
+			return c.prop
+		}
+	}
+	return ""
 }
